@@ -17,6 +17,7 @@ REFACTORS = {
     "messages_changed": r"grep -rl 'is undefined for' src | xargs sed -i 's/is undefined for/has no value for/g'; sed -i 's/Point has no coordinate for variable/No coordinate for/' src/smoothmath/_private/point.py",
     "fix_nthroot_repr": r"""sed -i '0,/return f"NthPower({self._inner}, n={self.n})"/s//return f"NthRoot({self._inner}, n={self.n})"/' src/smoothmath/_private/expression/nth_root.py""",
     "bigger_step_budget": r"sed -i 's/REDUCTION_STEPS_BOUND = 1000/REDUCTION_STEPS_BOUND = 100000/' src/smoothmath/_private/base_expression/expression.py",
+    "giveup_reported_via_warnings_module": r"sed -i 's/^import logging$/import logging, warnings/; s/        logging.warning(f\"Unable to fully reduce within {REDUCTION_STEPS_BOUND} steps\")/        warnings.warn(f\"Unable to fully reduce within {REDUCTION_STEPS_BOUND} steps\")/' src/smoothmath/_private/base_expression/expression.py",
     "frozenset_variable_names": r"sed -i 's/        self._variable_names = variable_names/        self._variable_names = frozenset(variable_names)/' src/smoothmath/_private/base_expression/expression.py",
     "point_copies_kwargs": r"sed -i 's/        self._coordinates = kwargs/        self._coordinates = dict(kwargs)/' src/smoothmath/_private/point.py",
     "multiply_returns_float_zero": r"sed -i 's/            return 0$/            return 0.0/' src/smoothmath/_private/math_functions.py",
